@@ -2894,6 +2894,7 @@ func (dsc *dataStoreCommand) save(l lane.Lane, path string) (err error) {
 
 		dsc.ds.data.dirty = false
 		l.Tracef("Changes saved to %s", path)
+		verifPoint("save:done", 0, path)
 	}
 
 	return
